@@ -28,6 +28,16 @@ def chars(bytestring):
     return ''.join(chr(byte) for byte in bytestring)
 
 
+def _is_css(encoding):
+    # codecs.lookup() finds this codec under every spelling that normalizes to
+    # "css" ("CSS", " css", "css;"); each of them would make decode()/encode()
+    # call themselves without end
+    try:
+        return codecs.lookup(encoding).name == "css"
+    except LookupError:
+        return False
+
+
 def detectencoding_str(input, final=False):
     """
     Detect the encoding of the byte string ``input``, which contains the
@@ -215,7 +225,7 @@ def decode(input, errors="strict", encoding=None, force=True):
 
     if encoding is None or not force:
         (_encoding, explicit) = detectencoding_str(input, True)
-        if _encoding == "css":
+        if _is_css(_encoding):
             raise ValueError("css not allowed as encoding name")
         if (explicit and not force) or encoding is None:  # Take the encoding from the input
             encoding = _encoding
@@ -236,7 +246,7 @@ def encode(input, errors="strict", encoding=None):
             input = _fixencoding(input, "utf-8", True)
     else:
         input = _fixencoding(input, str(encoding), True)
-    if encoding == "css":
+    if _is_css(encoding):
         raise ValueError("css not allowed as encoding name")
     encoder = codecs.getencoder(encoding)
     return (encoder(input, errors)[0], consumed)
@@ -295,7 +305,7 @@ if hasattr(codecs, "IncrementalDecoder"):
                     if encoding is None:  # no encoding determined yet
                         self.buffer = input  # retry the complete input on the next call
                         return ""  # no encoding determined yet, so no output
-                    elif encoding == "css":
+                    elif _is_css(encoding):
                         raise ValueError("css not allowed as encoding name")
                     if (explicit and not self.force) or self.encoding is None:  # Take the encoding from the input
                         self.encoding = encoding
@@ -393,7 +403,7 @@ if hasattr(codecs, "IncrementalEncoder"):
                         # unterminated charset rule and no more data: default to UTF-8
                         self.encoding = "utf-8"
                 if self.encoding is not None:
-                    if self.encoding == "css":
+                    if _is_css(self.encoding):
                         raise ValueError("css not allowed as encoding name")
                     info = codecs.lookup(self.encoding)
                     encoding = self.encoding
@@ -466,7 +476,7 @@ class StreamWriter(codecs.StreamWriter):
                 # Use encoding from the @charset declaration
                 self.encoding = detectencoding_unicode(input, False)[0]
             if self.encoding is not None:
-                if self.encoding == "css":
+                if _is_css(self.encoding):
                     raise ValueError("css not allowed as encoding name")
                 self.streamwriter = codecs.getwriter(self.encoding)(self.stream, self._errors)
                 encoding = self.encoding
@@ -508,7 +518,7 @@ class StreamReader(codecs.StreamReader):
                 (encoding, explicit) = detectencoding_str(input, False)
                 if encoding is None:  # no encoding determined yet
                     return ("", 0)  # no encoding determined yet, so no output
-                elif encoding == "css":
+                elif _is_css(encoding):
                     raise ValueError("css not allowed as encoding name")
                 if (explicit and not self.force) or self.encoding is None:  # Take the encoding from the input
                     self.encoding = encoding
